@@ -37,8 +37,9 @@ ASSUMPTIONS = [
     "controlled scheduler; EDEADLK raised by the real kernel (process-granular cycle detection) is counted, not judged",
 ]
 MIN_NONTRIVIAL = {"quick": 150, "thorough": 1500}
-REQUIRED_MONITORS = ["runs", "S1_checks", "S2_checks", "S5_checks", "enter_events", "real_runs", "real_S1_checks", "real_S2_checks",
-                     "real_S5_checks", "real_yields_injected"]
+REQUIRED_MONITORS = ["runs", "S1_checks", "S2_checks", "S5_checks", "enter_events", "real_runs", "real_S1_checks", "real_S5_checks"]
+# (real_S2_checks and real_yields_injected are reported in the evidence but not required: /proc/locks may be unreadable and
+# sys.monitoring absent on another interpreter - the S1 / S5 verdicts of the real tier do not depend on them)
 
 PATHS = ["/locks/a", "/locks/b"]
 
